@@ -27,39 +27,65 @@ type State struct {
 	Locals  []map[string]tla.Value // per process; includes ".pc" and ".stack"
 	Globals Globals
 	Obs     string // property-specific observer component (part of the key)
-	key     string
+	lhash   [][16]byte         // cached hash of the canonical rendering per process (zero = not computed)
+	gkey    map[string]gkEntry // cached hash of the canonical rendering per global (valid while the value is the same object)
+	hash    [16]byte
+	hashed  bool
+}
+
+type gkEntry struct {
+	v tla.Value
+	h [16]byte
+}
+
+func sameValue(a, b tla.Value) (eq bool) {
+	defer func() {
+		if recover() != nil {
+			eq = false
+		}
+	}()
+	return a == b
 }
 
 func (s *State) PC(p int) string { return s.Locals[p][".pc"].AsString() }
 
-// Key is the canonical rendering of everything the future can depend on.
-func (s *State) Key() string {
-	if s.key != "" {
-		return s.key
+func (s *State) localsKey(p int) string {
+	var lb strings.Builder
+	l := s.Locals[p]
+	names := make([]string, 0, len(l))
+	for n := range l {
+		names = append(names, n)
 	}
-	var b strings.Builder
-	for p, l := range s.Locals {
-		names := make([]string, 0, len(l))
-		for n := range l {
-			names = append(names, n)
-		}
-		sort.Strings(names)
-		fmt.Fprintf(&b, "P%d{", p)
-		for _, n := range names {
-			b.WriteString(n)
-			b.WriteString("=")
-			canon(&b, l[n])
-			b.WriteString(";")
-		}
-		b.WriteString("}")
+	sort.Strings(names)
+	fmt.Fprintf(&lb, "P%d{", p)
+	for _, n := range names {
+		lb.WriteString(n)
+		lb.WriteString("=")
+		canon(&lb, l[n])
+		lb.WriteString(";")
 	}
+	lb.WriteString("}")
+	return lb.String()
+}
+
+func (s *State) globalNames() []string {
 	names := make([]string, 0, len(s.Globals))
 	for n := range s.Globals {
 		names = append(names, n)
 	}
 	sort.Strings(names)
+	return names
+}
+
+// Key is the canonical rendering of everything the future can depend on (for humans, replay
+// files and conformance comparison; the search itself uses Hash).
+func (s *State) Key() string {
+	var b strings.Builder
+	for p := range s.Locals {
+		b.WriteString(s.localsKey(p))
+	}
 	b.WriteString("G{")
-	for _, n := range names {
+	for _, n := range s.globalNames() {
 		b.WriteString(n)
 		b.WriteString("=")
 		canon(&b, s.Globals[n])
@@ -68,8 +94,42 @@ func (s *State) Key() string {
 	b.WriteString("}O{")
 	b.WriteString(s.Obs)
 	b.WriteString("}")
-	s.key = b.String()
-	return s.key
+	return b.String()
+}
+
+// Hash is a 128-bit hash of Key(), computed from cached per-process and per-variable hashes so
+// that only what a step changed is rendered again.
+func (s *State) Hash() [16]byte {
+	if s.hashed {
+		return s.hash
+	}
+	var zero [16]byte
+	if s.lhash == nil {
+		s.lhash = make([][16]byte, len(s.Locals))
+	}
+	buf := make([]byte, 0, 16*(len(s.Locals)+len(s.Globals))+len(s.Obs)+8)
+	for p := range s.Locals {
+		if s.lhash[p] == zero {
+			s.lhash[p] = md5.Sum([]byte(s.localsKey(p)))
+		}
+		buf = append(buf, s.lhash[p][:]...)
+	}
+	names := s.globalNames()
+	ng := make(map[string]gkEntry, len(names))
+	for _, n := range names {
+		v := s.Globals[n]
+		e, ok := s.gkey[n]
+		if !ok || !sameValue(e.v, v) {
+			e = gkEntry{v, md5.Sum([]byte(n + "=" + Canon(v)))}
+		}
+		ng[n] = e
+		buf = append(buf, e.h[:]...)
+	}
+	s.gkey = ng
+	buf = append(buf, s.Obs...)
+	s.hash = md5.Sum(buf)
+	s.hashed = true
+	return s.hash
 }
 
 // KeyNoObs is the key without the observer component (for conformance comparison).
@@ -78,11 +138,14 @@ func (s *State) KeyNoObs() string {
 	return k[:strings.LastIndex(k, "O{")]
 }
 
-func (s *State) Hash() [16]byte { return md5.Sum([]byte(s.Key())) }
 
 func (s *State) clone() *State {
-	n := &State{Locals: make([]map[string]tla.Value, len(s.Locals)), Globals: s.Globals, Obs: s.Obs}
+	n := &State{Locals: make([]map[string]tla.Value, len(s.Locals)), Globals: s.Globals, Obs: s.Obs, gkey: s.gkey}
 	copy(n.Locals, s.Locals)
+	if s.lhash != nil {
+		n.lhash = make([][16]byte, len(s.lhash))
+		copy(n.lhash, s.lhash)
+	}
 	return n
 }
 
@@ -108,6 +171,10 @@ type Attempt struct {
 	Err     string
 	Choices []Choice
 	Event   *trace.Event
+	Dev     int // deviation cost of this attempt
+	reads   []readRec
+	wops    []wop
+	nocache bool
 }
 
 type stepStop struct{}
@@ -238,6 +305,8 @@ func (sys *System) Try(s *State, p int, prefix []int) (a Attempt) {
 	}()
 	a.Choices = choices
 	a.Event = rec.ev
+	a.Dev = t.Dev
+	a.reads, a.wops, a.nocache = t.reads, t.wops, t.uncacheable
 	switch {
 	case panicked != nil:
 		a.Kind = Failed
@@ -257,6 +326,9 @@ func (sys *System) Try(s *State, p int, prefix []int) (a Attempt) {
 		a.Kind = Commit
 		n := s.clone()
 		n.Locals[p] = ctx.VerifLocals()
+		if n.lhash != nil {
+			n.lhash[p] = [16]byte{}
+		}
 		if out != nil {
 			n.Globals = out
 		}
